@@ -41,4 +41,9 @@ TEXT = {
   "note": "Trusts the harness rendering (every cell rendered structurally, bit-strings bit by bit through the public iterator). The REPL binary itself is not driven; its snapshot/rollback are State::clone, which is what is monitored.",
   "technique": "history monitor: immutability of untouched copies after every operation + replay of the post-clone suffix on the snapshot (twin execution)",
  },
+ "C14": {
+  "level": "Exploration with the limit values enumerated around each program's need: for generated programs every instruction / stack / heap limit around the program's exact need (and all small values) is tried in step mode (own instruction counter, dump hook after every step) and in run mode; bounds are never exceeded, the boundary is exact (need accepted, need-1 refused, shifted exactly by pre-existing items, also inside build-time meta blocks), hitting a limit makes no further progress, and after raising the limit execution reaches the unconstrained twin's result.",
+  "note": "Trusts the verif_dump hook for stack/heap sizes and the monitor's own counting of successful next() calls. Programs <= 1500 instructions.",
+  "technique": "invariant-at-hook monitor + boundary sweep against an unconstrained twin + metamorphic boundary shift + recovery probes",
+ },
 }
